@@ -1,25 +1,21 @@
 #!/bin/bash
-# Binding self-test: apply every seeded change to /repo in turn, run the check(s) that should catch it,
-# restore /repo, and print a table.  Not a registered check (it edits /repo's work tree temporarily).
+# Binding self-test: every seeded change is applied to a scratch worktree of /repo and the check(s)
+# that should catch it are run from a scratch copy of /verif pointed at that worktree
+# (tools/try_isolated.sh); /repo itself is never touched.  Prints a table.  Not a registered check.
 #   tools/selftest.sh            all seeded changes
 #   tools/selftest.sh C05        only those whose directory name starts with C05
 set -u
 cd /verif
 filter=${1:-}
-declare -A EXTRA=( [C03-explicit-commit-mode-overridden]="C03 C04" [C14-format-timestamp-local-tz]="C14 C15" [C01-leading-zero-beyond-u64-kept]="C01 C16 C06" [C06-smart-tier-post-zero]="C06" )
-printf "%-48s %-6s %s\n" "seeded change" "check" "result"
+declare -A EXTRA=( [C03-explicit-commit-mode-overridden]="C03,C04" [C14-format-timestamp-local-tz]="C14,C15" [C01-leading-zero-beyond-u64-kept]="C01,C16,C06"
+                   [C03-longest-branch-rule-wins]="C03,C04" [C01-pep440-empty-local-bare-plus]="C01,C06" )
+printf "%-48s %s\n" "seeded change" "result"
 for d in seeded/*/; do
   name=$(basename "$d")
   [[ -n "$filter" && "$name" != "$filter"* ]] && continue
   [[ -f "$d/patch.diff" ]] || continue
   checks=${EXTRA[$name]:-${name%%-*}}
-  if ! git -C /repo diff --quiet; then echo "/repo not clean"; exit 2; fi
-  if ! git -C /repo apply --check "$PWD/$d/patch.diff" 2>/dev/null; then printf "%-48s %-6s %s\n" "$name" "-" "patch does not apply"; continue; fi
-  git -C /repo apply "$PWD/$d/patch.diff"
-  for c in $checks; do
-    ./check "$c" --tier quick > .build/selftest-$name-$c.log 2>&1; rc=$?
-    case $rc in 1) res="DETECTED ($(grep -m1 'violations by key' .build/selftest-$name-$c.log | cut -c1-120))";; 0) res="missed";; *) res="tool error";; esac
-    printf "%-48s %-6s %s\n" "$name" "$c" "$res"
-  done
-  git -C /repo checkout -- .
+  if ! git -C /repo apply --check "$PWD/$d/patch.diff" 2>/dev/null; then printf "%-48s %s\n" "$name" "patch does not apply (neutralised by a later fix)"; continue; fi
+  tools/try_isolated.sh "$d/patch.diff" "$checks" quick 2>&1 | grep -E "^check |violations by key" | sed "s/^/    /" | cut -c1-220 > .build/selftest-$name.txt
+  printf "%-48s\n" "$name"; cat .build/selftest-$name.txt
 done
